@@ -231,7 +231,7 @@ def proof_gate(prop, tier="quick", extra_props=()):
             for thm, axs in ass.items():
                 g.assumptions[thm] = axs
                 for a in axs:
-                    if a not in allow:
+                    if a not in allow and a.split(".")[-1] not in {x.split(".")[-1] for x in allow}:
                         g.ok = False
                         g.problems.append("theorem %s depends on %s, not in assumptions.allow" % (thm, a))
         if tier == "thorough" and os.environ.get("VERIF_COQCHK", "1") == "1":
